@@ -110,7 +110,8 @@ pub fn run_seq(cfg: &SeqCfg) {
         let o = futs[i].o;
         futs[i].wf.flag.store(false, Ordering::SeqCst);
         if rng.random_range(0..100) < 15 {
-          futs[i].wf = Arc::new(WakeFlag { o, flag: AtomicBool::new(false) });
+          futs[i].wf.stale.store(true, Ordering::SeqCst);
+          futs[i].wf = WakeFlag::new(o);
         }
         let waker = Waker::from(futs[i].wf.clone());
         let mut cx = Context::from_waker(&waker);
@@ -149,7 +150,7 @@ pub fn run_seq(cfg: &SeqCfg) {
         held.push((o, g, op != "read"));
       } else if futs.len() < 3 {
         hist::push(json!({"k":"call","o":o,"op":op,"fut":true}));
-        futs.push(PF { o, fut: lk.fut(op), wf: Arc::new(WakeFlag { o, flag: AtomicBool::new(false) }) });
+        futs.push(PF { o, fut: lk.fut(op), wf: WakeFlag::new(o) });
       }
     }
     if !futs.is_empty() {
